@@ -103,7 +103,7 @@ pub fn monitor(out: &RunOut) -> MonOut {
                                     if s0.last_update_time != s1.last_update_time {
                                         m.viol(p, "R5", &site, "last-contact time changed by a check that ended in an unauthenticated response".to_string());
                                     }
-                                    if p1.failures != p0.failures.wrapping_add(1) {
+                                    if p1.failures != p0.failures.saturating_add(1) {
                                         m.viol(p, "R6", &site, format!("consecutive failures went {} -> {} over a check with a validation failure", p0.failures, p1.failures));
                                     }
                                 }
@@ -147,7 +147,7 @@ pub fn monitor(out: &RunOut) -> MonOut {
                     if s0.last_update_time != s1.last_update_time {
                         m.viol(p, "R5", &site, "last-contact time changed by an unauthenticated ping response".to_string());
                     }
-                    if p1.failures != p0.failures.wrapping_add(1) {
+                    if p1.failures != p0.failures.saturating_add(1) {
                         m.viol(p, "R8", &site, format!("consecutive failures went {} -> {} over a failed ping", p0.failures, p1.failures));
                     }
                 }
